@@ -109,6 +109,16 @@ func init() {
 			fr.i.p.summ = map[string]bool{}
 		}
 		fr.i.p.summ[a[0].(string)] = true
+		switch a[0].(string) {
+		case "hb-race":
+			fr.i.p.race = &raceState{cells: map[interface{}]*shadow{}, reported: map[string]bool{}}
+		case "preempt-1":
+			fr.i.p.preemptBudget = 1
+		case "preempt-2":
+			fr.i.p.preemptBudget = 2
+		case "preempt-3":
+			fr.i.p.preemptBudget = 3
+		}
 		return nil
 	}
 	intrinsics[apiPkg+".UnwindAssume"] = func(fr *frame, a []value) value {
